@@ -26,7 +26,8 @@ MANIFEST = {
             'boundary of the real scheduling loop) are run through the real '
             'parent/child scheduler pair; at every grant the ledger decides '
             'disjointness of cores, GPU share sums, lfs/mem capacity, blocked '
-            'resources and agent nodes.',
+            'resources and agent nodes.'
+            "  Second session: layouts now include 0-2 sub-agent nodes and a service node (./services), and 'reserved node used' is decided from the agent/service node lists alone.",
     'note': 'components run as threads over the in-memory transport; the fork '
             'is emulated by two objects sharing only the two queues; '
             'Continuous scheduler only (ContinuousJsrun uses another slot '
